@@ -10,6 +10,7 @@ import os
 import random
 import sys
 import tempfile
+import threading
 import time
 
 PROP = 'C18'
@@ -137,7 +138,7 @@ class SlowPickle:
         return (SlowPickle, (self.tag,))
 
 
-def run_mux_case(seed, n_requests=24, connections=3):
+def run_mux_case(seed, n_requests=24, connections=3, problems=None):
     """real SocketServer (in a thread) + SocketClient over a unix socket; handler latency chosen per
     request so that responses are produced out of request order; every response must be the handler's
     function of the caller's own payload; stream must preserve input order."""
@@ -163,7 +164,7 @@ def run_mux_case(seed, n_requests=24, connections=3):
     server = make_server(app, path=path)
     th = threading.Thread(target=lambda: asyncio.run(server.serve()), daemon=True)
     th.start()
-    problems = []
+    problems = problems if problems is not None else []
     # a second client of the same server, busy at the same time: each client must get the responses to its own requests
     other = {'out': None}
 
@@ -223,7 +224,14 @@ def run_mux_case(seed, n_requests=24, connections=3):
             th2.join(60)
             if other['out'] != 'ok':
                 problems.append(str(other['out'] or 'second client did not finish within 60 s'))
-            client.request('/shutdown', response_timeout=0)
+            # a request that arrives about 0.1 s after the last response on its connection (the responder's poll interval):
+            # here the final '/shutdown', whose response must arrive like any other
+            client.request('/echo', payloads[0], response_timeout=30)
+            time.sleep(0.0995)
+            try:
+                client.request('/shutdown', response_timeout=3)
+            except Exception as e:  # noqa
+                problems.append(f'the response to the final /shutdown request never arrived ({e!r})')
     except Exception as e:  # noqa
         problems.append('loopback run failed: ' + repr(e)[:200])
     th.join(20)
@@ -315,7 +323,19 @@ def impl_main(argv):
     for k in range(n_mux):
         c = {'kind': 'mux', 'seed': seed * 100 + k}
         try:
-            obs = {'problems': run_mux_case(c['seed'], connections=1 + k % 3)}
+            probs = []
+            done = threading.Event()
+
+            def body(seed_=c['seed'], conn=1 + k % 3, probs=probs, done=done):
+                try:
+                    run_mux_case(seed_, connections=conn, problems=probs)
+                except BaseException as e:  # noqa
+                    probs.append('loopback run crashed: ' + repr(e)[:200])
+                done.set()
+            threading.Thread(target=body, daemon=True).start()
+            if not done.wait(150):
+                probs.append('the loopback run (leaving the client context included) had not ended after 150 s')
+            obs = {'problems': list(probs)}
         except BaseException as e:  # noqa
             obs = {'crash': repr(e)[:300], 'problems': []}
         res.append({'cfg': c, 'obs': obs, 'oracle': oracle(c, obs), 'strategy': 'mux', 'verdict': 'ok'})
